@@ -139,6 +139,18 @@ CHECKS["C13"] = dict(
     technique="Lean 4 proofs of the distribution structure (censoring, factorisation, multinomial theorem) + full-table checks of the real problems",
     ref="§8 C13", note="Accuracy, non-negativity and monotonicity of numpyro/jax special functions are assumptions checked numerically on the tables used. "
                       "The identification of filtered product-space combinations with the list of splits is tied numerically, not proved.")
+CHECKS["C16"] = dict(
+    text="Theorems about how the code combines its primitives: gamma shape/rate conversion gives the documented mean and coefficient of "
+         "variation; De Moor probabilities are successive differences of the half-integer cdf table with the last bin 1 - F(D-1/2) + F(0); the "
+         "negative-binomial success probability n/(n+delta) gives mean delta; the last Mirjalili demand bin is 1 - sum_{d<D} nb(d); slot j of the "
+         "received vector carries the logit of remaining life m-j (0 for life 1, c0[k-2]+c1[k-2]*a for life k); product form and zero off the "
+         "simplex (C13); Hendrix initial value is the expectation sum_e P(e) revenue(e); Forest table. Partial: equality of float special "
+         "functions with their mathematical definitions is numerical analysis - sampled, not proved. Tie: mpmath (50 digits, independent of "
+         "jax/numpyro/scipy) reference primitives from the documented parameters, combined by the Lean model and compared entrywise with the "
+         "implementation's full tables (1e-9; 2e-6 for Mirjalili because numpyro's negative-binomial log-pmf is only ~1e-6 accurate); Hendrix "
+         "against a brute-force enumeration of (d_A, d_B, u) inside the truncation region; initial values against their documented definition.",
+    technique="Lean 4 proofs of the combination rules (parameter conversions, discretisation, censoring, logit order) + mpmath reference pushed through the model and compared with the real tables",
+    ref="§8 C16", note="Special-function accuracy is assumed and sampled; the Hendrix joint law is checked by brute force, not by a theorem.")
 PENDING = {}
 
 
